@@ -29,8 +29,11 @@ let () =
           | [cp; fl; nm] ->
             let c = int_of_string cp in
             let nm' = cps nm in
-            Hashtbl.replace tab c (int_of_string fl, nm');
-            if nm' <> [] then Hashtbl.replace names (show nm') (n_of_int c)
+            (* flags -1: an alias entry -- unicodedata.lookup also accepts name aliases such as FF or LF;
+               it only extends the lookup table *)
+            if int_of_string fl >= 0 then Hashtbl.replace tab c (int_of_string fl, nm');
+            if nm' <> [] && (int_of_string fl >= 0 || not (Hashtbl.mem names (show nm')))
+            then Hashtbl.replace names (show nm') (n_of_int c)
           | _ -> failwith "bad table entry") entries;
         let flags c = match Hashtbl.find_opt tab (int_of_n c) with Some (f, _) -> f | None -> 0 in
         let u = { xid_start = (fun c -> flags c land 1 <> 0);
